@@ -88,7 +88,11 @@ RULE = (
     "result, len/start/stop. Non-trivial: the (last) window keeps a non-empty "
     "proper subset of the channel, or one of its bounds lies within one period of the first/last sample, or it lies "
     "wholly before/after the data; for strings: accepted by the grammar with at least one group, or rejected; for item chains: "
-    "a non-empty source or a non-mask item."
+    "a non-empty source or a non-mask item. Strengthening round H: `pre` = other windows taken (and read) from the very objects that "
+    "are about to be indexed, the chain then taken a second time from the same objects (exhaustive on four small sources, 30% of the "
+    "random get/item cases); `h5` = the channel built by the source's own from_dataset from an in-memory HDF5 dataset (every window "
+    "on seven small sources, 15% of the random cases); markers read from a dataset (Marker.from_dataset), calibration items with "
+    "the full set of stored fields, NumPy-typed bounds on all kinds; objects with only one of start/stop among the non-window arguments."
 )
 TRUSTED = [
     "time strings: ASCII only (Python's \\d/\\s also accept non-ASCII digits/spaces; outside the model)",
@@ -121,7 +125,47 @@ def _timeindex():
     return timeindex
 
 
+_H5 = {"file": None, "count": 0}
+
+
+def _h5_dataset(data, attrs=None):
+    """a dataset of an in-memory HDF5 file (nothing touches the disk); a new file every 256 datasets, the old one is
+    released when the last object reading from it is gone"""
+    import h5py
+
+    if _H5["file"] is None or _H5["count"] % 256 == 0:
+        _H5["file"] = h5py.File(f"c01-mem-{_H5['count']}", "w", driver="core", backing_store=False)
+    _H5["count"] += 1
+    d = _H5["file"].create_dataset(f"d{_H5['count']}", data=data)
+    for key, v in (attrs or {}).items():
+        d.attrs[key] = v
+    return d
+
+
+def build_h5(case):
+    """the channel as File hands it out: built by the source's own from_dataset from an HDF5 dataset (lazily read data,
+    NumPy-typed start, period derived from the stored sample rate, compound Timestamp/Value records)"""
+    channel, _ = _lk()
+    k = case["kind"]
+    if k == "cont":
+        d = _h5_dataset(np.arange(case["n"]), {"Kind": "Continuous", "Start time (ns)": np.int64(case["start"]),
+                                              "Stop time (ns)": np.int64(case["start"] + case["n"] * case["dt"]),
+                                              "Sample rate (Hz)": 1e9 / case["dt"]})
+        return channel.Continuous.from_dataset(d)
+    ts = np.array(case["ts"], dtype=np.int64)
+    if k == "ts":
+        rec = np.zeros(len(ts), dtype=np.dtype([("Timestamp", np.int64), ("Value", float)]))
+        rec["Timestamp"] = ts
+        rec["Value"] = np.arange(len(ts))
+        return channel.TimeSeries.from_dataset(_h5_dataset(rec, {"Kind": b"TimeSeries"}))
+    if k == "tags":
+        return channel.TimeTags.from_dataset(_h5_dataset(ts, {"Kind": "TimeTags"}))
+    raise ValueError(k)
+
+
 def build(case):
+    if case.get("h5"):
+        return build_h5(case)
     channel, _ = _lk()
     k = case["kind"]
     if k == "cont":
@@ -135,6 +179,19 @@ def build(case):
     if k == "tags":
         return channel.Slice(channel.TimeTags(ts))
     raise ValueError(k)
+
+
+def touch(obj, pre):
+    """strengthening round H: use the very object that is about to be indexed -- take other windows from it and read
+    what they return -- and throw the results away.  Indexing is a pure function of (channel, window): whatever a source
+    remembers (cached arrays, a resolved bound, an index) must not leak into the next answer."""
+    for a, b in pre:
+        r = obj[slice(dec_bound(a), dec_bound(b))]
+        np.asarray(r.timestamps), np.asarray(r.data), len(r)
+        if len(r):
+            r.start, r.stop
+    if pre:
+        np.asarray(obj.timestamps), np.asarray(obj.data), len(obj)
 
 
 def src_tokens(case):
@@ -187,10 +244,29 @@ def make_item(a, b, via):
         return slice(a, b)
     if via == "obj":
         return Obj(a, b)
-    if via == "marker":
+    if via == "markerh5" and all(isinstance(v, (int, np.integer)) for v in (a, b)):
+        # the marker as File.markers hands it out: read from a dataset whose attributes hold the two timestamps
+        import json
+        from lumicks.pylake.marker import Marker
+
+        d = _h5_dataset(json.dumps({"name": "m", "payload": json.dumps({"value0": {"comment": "c"}})}),
+                        {"Start time (ns)": np.int64(a), "Stop time (ns)": np.int64(b)})
+        return Marker.from_dataset(d, None)
+    if via in ("marker", "markerh5"):
         from lumicks.pylake.marker import Marker
 
         return Marker(None, {"Start time (ns)": a, "Stop time (ns)": b}, {})
+    if via == "calibfull":
+        from lumicks.pylake.force_calibration.calibration_item import ForceCalibrationItem
+
+        # a calibration item as it is stored with a force channel: many more fields than the two bounds, among them
+        # other times (when it was applied) and counts
+        ref = next((int(v) for v in (a, b) if isinstance(v, (int, np.integer))), 0)
+        fields = {"Kind": "Full calibration", "Timestamp (ns)": ref + 3, "Sample rate (Hz)": 78125, "Number of samples": 781250,
+                  "Response (pN/V)": 1.5, "Rd (um/V)": 7.25, "kappa (pN/nm)": 0.25, "Offset (pN)": 0.0, "Bead diameter (um)": 4.4,
+                  "Temperature (C)": 25.0, "Viscosity (Pa*s)": 0.00089, "Fit range (min.) (Hz)": 100.0, "Fit range (max.) (Hz)": 23000.0}
+        fields.update({k: v for k, v in (("Start time (ns)", a), ("Stop time (ns)", b)) if v is not None})
+        return ForceCalibrationItem(fields)
     if via == "calib":
         from lumicks.pylake.force_calibration.calibration_item import ForceCalibrationItem
 
@@ -206,7 +282,17 @@ def make_item(a, b, via):
 
 
 OTHERS = {"list": [1], "tuple": (1, 2), "bytes": b"1s", "dict": {"start": 1}}
-SCALARS = {"int": 5, "list": [True, False], "str": "1s", "float": 2.5, "none": None}
+
+
+class Half:
+    """an object with only ONE of the two attributes: not "an object with start/stop", hence not a window"""
+
+    def __init__(self, **kw):
+        self.__dict__.update(kw)
+
+
+SCALARS = {"int": 5, "list": [True, False], "str": "1s", "float": 2.5, "none": None,
+           "only-start": Half(start=5), "only-stop": Half(stop=9), "only-start-none": Half(start=None), "only-stop-str": Half(stop="1ns")}
 
 
 def dec_arg(b):
@@ -276,15 +362,28 @@ def impl(case):
     k = case["op"]
     try:
         if k == "get":
-            s = build(case)
+            base = s = build(case)
             npw = (lambda v: np.int64(v) if isinstance(v, int) else v) if case.get("np") else (lambda v: v)
-            for (a, b), via in zip(case["windows"], case["via"]):
-                s = s[make_item(npw(dec_bound(a)), npw(dec_bound(b)), via)]
+            pre = case.get("pre", [])
+            seen = []
+            for rnd in range(2 if pre else 1):
+                # with `pre`: other windows are taken from each object before the window under test (see touch); then the
+                # whole chain is taken a second time from the same objects.  The FIRST answer is the one compared.
+                s = base
+                for (a, b), via in zip(case["windows"], case["via"]):
+                    if not rnd:
+                        touch(s, pre)
+                    s = s[make_item(npw(dec_bound(a)), npw(dec_bound(b)), via)]
+                seen.append((s, list(np.asarray(s.timestamps)), list(np.asarray(s.data))))
+            s = seen[0][0]
+            seen = [x[1:] for x in seen]
             ts = np.asarray(s.timestamps)
             data = np.asarray(s.data)
             if len(ts) != len(data):
                 return [f"length-mismatch {len(ts)} {len(data)}"]
             kind = case["kind"]
+            if len(seen) == 2 and seen[0] != seen[1]:
+                return [f"history-dependent {kind} first " + show_samples(*seen[0]) + " later " + show_samples(*seen[1])]
             # second observable: Slice.start / Slice.stop of a non-empty result (what a nested relative time string
             # counts from, and what `None` stands for at the next level)
             bounds = "0" if len(s) == 0 else f"{len(s)} {int(s.start)} {int(s.stop)}"
@@ -311,7 +410,9 @@ def impl(case):
             return [first, bounds, back]
         if k == "item":
             s = build(case)
+            pre = case.get("pre", [])
             for it in case["items"]:
+                touch(s, pre)
                 s = s[make_full_item(it)]
             ts = np.asarray(s.timestamps)
             data = np.asarray(s.data)
@@ -400,6 +501,9 @@ def oracle(case, ia):
             exp = "tags " + enc_list([t for t, _ in cur])
         else:
             exp = f"{case['kind']} " + show_samples([t for t, _ in cur], [v for _, v in cur])
+        if ans.startswith("history-dependent"):
+            return ("purity: the same window(s) taken twice from the same channel object, with other windows "
+                    f"{case.get('pre')} taken from it in between, gave different samples: {ans[:400]} (expected both times {exp[:200]})")
         if ans != exp:
             return f"window-membership: implementation returned {ans[:300]} but the samples with start <= t < stop are {exp[:300]}"
         if len(ia) > 2 and ia[2] != ia[0]:
@@ -432,7 +536,11 @@ def oracle(case, ia):
                 continue  # an empty slice returns itself
             lo, hi = it["a"], it["b"]
             if any(isinstance(v, dict) for v in (lo, hi)):
-                if level > 0 or case.get("unsorted") or any("s" not in v for v in (lo, hi) if isinstance(v, dict)):
+                for v in (lo, hi):
+                    if isinstance(v, dict) and "s" not in v:
+                        # a window is given as timestamps, time strings or None; anything else is no window at all
+                        return f"bound: a {v['other']} accepted as a window bound of a non-empty channel: {ans[:100]}"
+                if level > 0 or case.get("unsorted"):
                     return None
                 begin = cur[0][0]
                 end = begin + len(cur) * case["dt"] if case["kind"] == "cont" else cur[-1][0] + 1
@@ -506,6 +614,16 @@ def tags(case, r):
 
 def shrink(case):
     k = case["op"]
+    for key in ("pre", "h5", "np", "shift"):
+        if key in case:
+            c = dict(case)
+            del c[key]
+            yield c
+    if len(case.get("pre", [])) > 1:
+        for i in range(len(case["pre"])):
+            c = dict(case)
+            c["pre"] = case["pre"][:i] + case["pre"][i + 1 :]
+            yield c
     if k == "get":
         if len(case["windows"]) > 1:
             for i in range(len(case["windows"])):
@@ -656,6 +774,30 @@ def cases(tier, rng):
     bounds = [None] + list(range(start - dt - 1, stop + dt + 2, 1 if not quick else 2))
     for a, b, c, d in itertools.product(bounds, repeat=4):
         yield {"stream": "small-scope", "op": "get", "kind": "cont", "start": start, "dt": dt, "n": n, "windows": [[a, b], [c, d]], "via": ["slice", "slice"]}
+    # channels as File hands them out (built by from_dataset from HDF5 datasets, see build_h5), every window
+    for base in ({"kind": "cont", "start": 7, "dt": 3, "n": 0}, {"kind": "cont", "start": 7, "dt": 3, "n": 1}, {"kind": "cont", "start": 7, "dt": 3, "n": 4},
+                 {"kind": "ts", "ts": []}, {"kind": "ts", "ts": [3, 5, 5, 9]}, {"kind": "tags", "ts": []}, {"kind": "tags", "ts": [1, 2, 4]}):
+        tsb = timestamps_of(base)
+        lo, hi = (tsb[0] if tsb else 7) - 4, (tsb[-1] if tsb else 7) + 5
+        bounds = [None] + list(range(lo, hi + 1))
+        for a, b in itertools.product(bounds, bounds):
+            yield dict(base, stream="small-scope", op="get", windows=[[a, b]], via=["slice"], h5=True)
+        for a, b, c, d in itertools.product(bounds[::4], repeat=4):
+            yield dict(base, stream="small-scope", op="get", windows=[[a, b], [c, d]], via=["markerh5", "slice"], h5=True, pre=[[lo + 2, hi - 2]])
+    # the same object indexed repeatedly: every window of a coarse grid taken (and read) before, between and after the
+    # window(s) under test, which are then taken a second time from the same objects
+    for base, lo, hi in (({"kind": "cont", "start": 7, "dt": 3, "n": 4}, 3, 22), ({"kind": "ts", "ts": [3, 5, 5, 9]}, 1, 12),
+                         ({"kind": "tags", "ts": [1, 2, 4]}, -1, 7), ({"kind": "ts", "ts": [9, 3, 5], "unsorted": True}, 1, 12)):
+        uns = base.get("unsorted")
+        fine = ([] if uns else [None]) + list(range(lo, hi + 1, 2 if quick and base["kind"] == "cont" else 1))
+        coarse = ([] if uns else [None]) + list(range(lo + 1, hi + 1, 4 if quick else 3))
+        for p, q in itertools.product(coarse, coarse):
+            for a, b in itertools.product(fine, fine):
+                yield dict(base, stream="small-scope", op="get", windows=[[a, b]], via=["slice"], pre=[[p, q]])
+        mid = (lo + hi) // 2
+        for p, q in ((lo + 1, mid), (mid, hi), (mid + 1, hi + 1), (hi, lo)) + (() if uns else ((None, mid), (mid, None))):
+            for a, b, c, d in itertools.product(coarse, repeat=4):
+                yield dict(base, stream="small-scope", op="get", windows=[[a, b], [c, d]], via=["slice", "slice"], pre=[[p, q]])
     # nested small scope with relative time strings at the second level (begin/end of the intermediate slice)
     rel = [None, {"s": "0ns"}, {"s": "1ns"}, {"s": "2ns"}, {"s": "-1ns"}, {"s": "-2ns"}, {"s": "3ns"}]
     for kind, g in (("tags", [1, 2, 4]), ("tags", [3, 5, 5, 9]), ("ts", [1, 2, 4]), ("cont", None)):
@@ -691,7 +833,7 @@ def cases(tier, rng):
             yield dict(base, stream="small-scope", op="item", items=[{"t": "O", "a": a, "b": b, "via": "obj"}])
             if a is None or b is None or isinstance(a, dict) or isinstance(b, dict):
                 yield dict(base, stream="small-scope", op="item", items=[{"t": "S", "a": a, "b": b, "step": 1}])
-        for via in ("marker", "calib", "tagslice"):
+        for via in ("marker", "calib", "tagslice", "markerh5", "calibfull"):
             for a, b in itertools.product(args[:5], args[:5]):
                 yield dict(base, stream="small-scope", op="item", items=[{"t": "O", "a": a, "b": b, "via": via}])
         for what in SCALARS:
@@ -781,13 +923,21 @@ def cases(tier, rng):
                     w.append(sub.randint(min(ts) - 3 * dt, max(ts) + 3 * dt))
             windows.append(w)
             has_none_or_str = any(x is None or isinstance(x, dict) for x in w)
-            via.append(sub.choice(["slice", "slice", "obj", "marker", "calib", "tagslice"]))
+            via.append(sub.choice(["slice", "slice", "slice", "obj", "marker", "calib", "tagslice", "markerh5", "calibfull"]))
         case.update({"stream": "random", "op": "get", "windows": windows, "via": via, "subseed": i})
-        if kind == "cont" and sub.chance(0.25):
+        if sub.chance(0.25):
+            # cont: start and bounds as NumPy scalars (as read from HDF5); ts / tags: the bounds (e.g. taken from another
+            # channel's timestamps array)
             case["np"] = True
         if sub.chance(0.3):
             lowest = min(ts)
             case["shift"] = sub.choice([1, 7, 10**9, sub.randint(0, 2**40), -sub.randint(0, lowest)])
+        h = sub.fork("history")
+        if not big and h.chance(0.15):
+            case["h5"] = True  # the channel as read from a file (see build_h5)
+        if h.chance(0.3):
+            # the same objects are indexed repeatedly (see touch): 1-3 other windows taken from them in between
+            case["pre"] = [[(None if not unsorted and h.chance(0.15) else h.choice(bv)) for _ in range(2)] for _ in range(h.randint(1, 3))]
         yield case
     # random chains of 1-3 items through the whole Slice.__getitem__ (windows with every kind of bound, masks,
     # rarely a step / scalar / non-number bound / invalid string)
@@ -842,7 +992,7 @@ def cases(tier, rng):
                         w.append(sub.randint(0, 50))
                 it = {"t": sub.choice(["S", "S", "O"]), "a": w[0], "b": w[1]}
                 if it["t"] == "O":
-                    it["via"] = sub.choice(["obj", "marker", "calib", "tagslice"])
+                    it["via"] = sub.choice(["obj", "marker", "calib", "tagslice", "markerh5", "calibfull"])
                 elif sub.chance(0.05):
                     it["step"] = sub.choice([1, 2, -1])
                 items.append(it)
@@ -850,6 +1000,12 @@ def cases(tier, rng):
                     break  # the harness does not track the intermediate begin/end; the model does (one level)
                 cur = [t for t in cur if (w[0] is None or w[0] <= t) and (w[1] is None or t < w[1])]
         case.update({"stream": "random", "op": "item", "items": items, "subseed": i})
+        h = sub.fork("history")
+        if h.chance(0.15):
+            case["h5"] = True
+        if h.chance(0.3):
+            case["pre"] = [[(None if h.chance(0.15) else (h.choice(boundary_values(ts, dt, h)) if ts else h.randint(0, 50))) for _ in range(2)]
+                           for _ in range(h.randint(1, 2))]
         yield case
     M = 600 if quick else 20000
     r = rng.fork("c01-strings")
